@@ -172,17 +172,23 @@ def kinds():
     import crysp.tlsh as tl
     T1 = bytes((7 * i * i + 3 * i + 1) & 0xff for i in range(80))
     T2 = bytes((11 * i * i + 5 * i + 2) & 0xff for i in range(120))
+    T3 = bytes(((i * i * i) ^ (i * 13 + 7) ^ (i >> 3)) & 0xff for i in range(300))        # long enough for a digest without force
+    T4 = bytes(((i * i * 5) ^ (i * 29 + 3) ^ (i >> 2)) & 0xff for i in range(400))
     nc = {'a': lambda o, a: o(T1), 'b': lambda o, a: o(T2), 'upd': lambda o, a: o.update(T1[:9]) and None}
     K['nilsimsa'] = Kind('nilsimsa', lambda a: nil.Nilsimsa(), nc, concrete=True)
-    tc = {'a': lambda o, a: o(T1), 'b': lambda o, a: o(T2), 'short': lambda o, a: o(T1[:10]), 'upd': lambda o, a: o.update(T2[:30]) and None}
+    # a: digest, b: another digest, none: too short without force (returns None), forced: the same input forced, short: below the
+    # hard minimum (None even when forced), upd: streaming left unfinished
+    tc = {'a': lambda o, a: o(T3), 'b': lambda o, a: o(T4), 'none': lambda o, a: o(T2), 'forced': lambda o, a: o(T2, True),
+          'short': lambda o, a: o(T1[:10], True), 'upd': lambda o, a: o.update(T2[:30]) and None}
     K['tlsh'] = Kind('tlsh', lambda a: tl.TLSH(128), tc, concrete=True)
     K['tlsh.singleton'] = Kind('tlsh.singleton', lambda a: tl.tlsh, tc, fresh=lambda a: tl.TLSH(128), concrete=True)
+    K['tlsh48'] = Kind('tlsh48', lambda a: tl.TLSH(48, wndsize=4, chklen=3), tc, concrete=True)
     return K
 
 
 KINDNAMES = ['sha1', 'sha256', 'sha512_256', 'md4', 'md5', 'blake256', 'blake256.singleton', 'blake2s', 'blake2s.singleton', 'keccak200',
              'keccak_256.singleton', 'sha3_256', 'md6', 'md6.seq', 'skein256', 'skein256.tree', 'hmac_sha1', 'aes128', 'aes128.other', 'des', 'tdea', 'serpent', 'threefish256', 'ecb', 'cbc', 'ctr',
-             'cts_ecb', 'cts_cbc', 'salsa20', 'chacha', 'crc32', 'nilsimsa', 'tlsh', 'tlsh.singleton']
+             'cts_ecb', 'cts_cbc', 'salsa20', 'chacha', 'crc32', 'nilsimsa', 'tlsh', 'tlsh.singleton', 'tlsh48']
 
 CALLS = {
     'sha1': ['m1', 'm2', 'bits', 'bad', 'stream'], 'sha256': ['m1', 'm2', 'bits', 'bad', 'stream'], 'sha512_256': ['m1', 'm2', 'bits', 'bad', 'stream'],
@@ -198,7 +204,8 @@ CALLS = {
     'ecb': ['enc1', 'enc2', 'encblk', 'decenc', 'baddec'], 'cbc': ['enc1', 'enc2', 'encblk', 'decenc', 'baddec'], 'ctr': ['enc1', 'enc2', 'encblk', 'decenc'],
     'cts_ecb': ['e1', 'e2', 'd'], 'cts_cbc': ['e1', 'e2', 'd'],
     'salsa20': ['e1', 'e2', 'long', 'd1'], 'chacha': ['e1', 'e2', 'long', 'd1'],
-    'crc32': ['c1', 'c2', 'fix', 'gen'], 'nilsimsa': ['a', 'b', 'upd'], 'tlsh': ['a', 'b', 'short', 'upd'], 'tlsh.singleton': ['a', 'b', 'short', 'upd'],
+    'crc32': ['c1', 'c2', 'fix', 'gen'], 'nilsimsa': ['a', 'b', 'upd'], 'tlsh': ['a', 'b', 'none', 'forced', 'short', 'upd'], 'tlsh.singleton': ['a', 'b', 'none', 'forced', 'short', 'upd'],
+    'tlsh48': ['a', 'none', 'forced', 'upd'],
 }
 # calls whose own result is not a value to compare (they only disturb state)
 NOISE = {'stream', 'upd', 'rekey', 'duplex', 'badrate', 'baddec'}      # duplex() is a stateful construction by design: only used as a disturbing call
@@ -210,7 +217,7 @@ class History(Case):
     timeout_s = 900
     bounds = ('object kinds: SHA1, SHA2(256), SHA2(512,256), MD4, MD5, Blake(256) and the blake256 singleton, Blake2(256) and the blake2s singleton, Keccak(b=200) and the keccak_256 singleton, SHA3(256), keyed MD6 (tree and sequential mode, 2 rounds), keyed Skein-256 and Skein-256 with tree parameters (Threefish uninterpreted), '
               'HMAC(SHA1), AES, AES after another instance was used, DES, TDEA, Serpent, Threefish-256, ECB/CBC/CTR/CTS_ECB/CTS_CBC over a stand-in cipher, Salsa20, Chacha, crc module, '
-              'Nilsimsa, TLSH and the tlsh singleton (the last three on concrete inputs); per-kind alphabets of 2..7 calls incl. optional parameters, raising calls and unfinished streaming; '
+              'Nilsimsa, TLSH(128), TLSH(48,4,3) and the tlsh singleton (the last four on concrete inputs: two digests, a too-short input answering None, the same forced, an input below the hard minimum, unfinished update); per-kind alphabets of 2..7 calls incl. optional parameters, raising calls and unfinished streaming; '
               'every history of length <= 2 (quick) / <= 3 (thorough) ending in a value-returning call; arguments symbolic')
     outside = 'histories longer than 3; similarity digests only on two concrete inputs'
 
